@@ -215,7 +215,9 @@ def main(tier):
         cfg = os.path.join(wd, "fine.cfg")
         tlc.write_cfg(cfg, spec="Spec", constants=FINE_OK,
                       invariants=["NothingBoundOnFailure", "FineEqualsCoarse", "SnapshotStable"])
-        chk.add_tlc("JtCheckFine[always]", tlc.run("JtCheckFine", cfg, wd))
+        rfine = tlc.run("JtCheckFine", cfg, wd, args=["-coverage", "1"])
+        chk.add_tlc("JtCheckFine[always]", rfine)
+        chk.action_coverage("JtCheckFine", rfine, ["Walk", "Failed", "Raised"])
         for mode in ("exception_only", "never"):
             c = dict(FINE_SMALL, RollbackMode=mode)
             cfg = os.path.join(wd, f"fine_{mode}.cfg")
